@@ -75,6 +75,18 @@ def conformance(ctx):
 
 # ------------------------------------------------------------------ (b) documents
 
+# texts that "tidying" code rewrites: not in Unicode NFC (decomposed diacritics, OHM / KELVIN / ANGSTROM SIGN, conjoining jamo), compatibility
+# characters (ligature, full-width letter, superscript), blanks at either end / doubled / no-break / zero-width, tabs and line breaks inside,
+# a byte-order mark, upper / lower case twins, a trailing period, things that look like markup or escapes
+ODD_TEXTS = ['Cafe\u0301', 'e\u0301\u0323', '\u2126 resistance', '\u212a', '\u212b ngstrom', '\u1100\u1161\u11a8', '\ufb01brosis', '\uff21bnormal', 'x\u00b2',
+             ' leading', 'trailing ', 'two  blanks', 'no\u00a0break', 'zero\u200bwidth', 'tab\there', 'line\nbreak', 'cr\rhere', '\ufeffbom',
+             'SEIZURE', 'seizure', 'Seizure.', '&amp; &lt;b&gt;', '\\n not a newline', '"quoted"', "it's", 'a' * 300, '\U0001F9EC gene', '\u0130stanbul', '\u00df']
+
+
+def odd_text(rng, default):
+    return rng.choice(ODD_TEXTS) if rng.random() < 0.9 else default
+
+
 def gen_doc(rng, malformed=False):
     n = rng.randrange(3, 16)
     nums = rng.sample(range(1, 400), n + 6)
@@ -113,7 +125,7 @@ def gen_doc(rng, malformed=False):
         elif t < 0.94:
             node['type'] = rng.choice(['UNKNOWN', 'class', 'Class'])
         if rng.random() < 0.85:
-            node['lbl'] = rng.choice(['Seizure', 'Anomalie é', 'x', '', f'term {num}'])
+            node['lbl'] = rng.choice(['Seizure', 'Anomalie é', 'x', '', f'term {num}', odd_text(rng, f'term {num}')])
         if rng.random() < 0.7:
             meta = {}
             d = rng.random()
@@ -124,16 +136,16 @@ def gen_doc(rng, malformed=False):
             elif d < 0.5:
                 meta['deprecated'] = rng.choice(['true', 0, 1, None])
             if rng.random() < 0.5:
-                meta['definition'] = {'val': f'def {num}'}
+                meta['definition'] = {'val': f'def {num}' if rng.random() < 0.85 else odd_text(rng, f'def {num}')}
                 if rng.random() < 0.6:
                     meta['definition']['xrefs'] = rng.choice([[], ['HPO:probinson'], ['PMID:1', 'https://orcid/x']])
                 if malformed and rng.random() < 0.3:
                     del meta['definition']['val']
             if rng.random() < 0.5:
-                meta['comments'] = rng.choice([[], ['c one'], ['c one', 'c two; x'], ['a', 'b', 'c']])
+                meta['comments'] = rng.choice([[], ['c one'], ['c one', 'c two; x'], ['a', 'b', 'c'], [odd_text(rng, 'c'), 'c one']])
             if rng.random() < 0.5:
                 meta['synonyms'] = [{'pred': rng.choice(['hasExactSynonym', 'hasRelatedSynonym', 'hasBroadSynonym', 'hasNarrowSynonym', 'hasOther']),
-                                     'val': f'syn {k if rng.random() < 0.7 else 0}', **({'synonymType': rng.choice(SYN_TYPES)} if rng.random() < 0.6 else {}),
+                                     'val': f'syn {k if rng.random() < 0.7 else 0}' if rng.random() < 0.85 else odd_text(rng, f'syn {k}'), **({'synonymType': rng.choice(SYN_TYPES)} if rng.random() < 0.6 else {}),
                                      **({'xrefs': rng.choice([[], ['HP:1'], ['junk', 'PMID:2'], ['junk'], ['https://orcid.org/0000-0002-0736-9199'],
                                                               ['orcid.org/0000-0001-5208-3432', 'PMID:3'], ['http://orcid.org/0000-0002-0736-919X'],
                                                               ['https://orcid.org/0000-0002-0736-91990', 'ORCID:0000-0002-0736-9199'],
